@@ -660,10 +660,17 @@ pub fn gen_replace(seed: u64, tier: &str) -> Vec<String> {
                 } else {
                     repl
                 };
-                out.lines.push("builder c0".into());
                 let scratch = RefTree::Node(3, vec![repl.clone()]);
-                emit_tree(&scratch, &mut out.lines, &mut rng);
-                out.lines.push("finish".into());
+                if ti % 2 == 1 && (k == 0 || rng.chance(1, 4)) {
+                    // the replacement comes from another cache over the same interner: equal elements, other allocations
+                    let mut evs = vec![];
+                    compact_tree(&scratch, &mut rng, &mut evs);
+                    out.lines.push(format!("wbuild with_interner c0 {}", evs.join(",")));
+                } else {
+                    out.lines.push("builder c0".into());
+                    emit_tree(&scratch, &mut out.lines, &mut rng);
+                    out.lines.push("finish".into());
+                }
                 let scratch_g = next_g;
                 next_g += 1;
                 out.lines.push(format!("replace e{} g{}.0", sim.eid(x), scratch_g));
